@@ -124,7 +124,8 @@ def props_report(pid: str) -> dict:
         if b.startswith(_AX_CLOSED):
             assumptions[name] = []
         else:
-            assumptions[name] = sorted(set(re.findall(r"^([A-Za-z_][A-Za-z0-9_'.]*)\s*:", b, re.M)))
+            body = b[len("Axioms:"):]
+            assumptions[name] = sorted(set(re.findall(r"^([A-Za-z_][A-Za-z0-9_'.]*)\s*:", body, re.M)))
     import shutil
     shutil.rmtree(d, ignore_errors=True)
     return {"ok": rc == 0, "theorems": theorems, "assumptions": assumptions, "log": out[-4000:],
